@@ -21,7 +21,9 @@ def task(which):
     return Task(w, f, con, name=f"C07/frame:{which}").run()
 
 
-VALUES = ["plain", "a<b", "x>y", "r&d", 'say "hi"', "it's", "&amp; already", "<para>p</para>", "ünï ✓ \U0001F600", "", " lead", "]]>", "a  b"]
+VALUES = ["plain", "a<b", "x>y", "r&d", 'say "hi"', "it's", "&amp; already", "<para>p</para>", "ünï ✓ \U0001F600", "", " lead", "]]>", "a  b",
+          # text that merely looks like an entity or a character reference is ordinary text and must come back as it is
+          "type &quot;yes&quot;", "it&apos;s", "R&D &apos; & co", "&#38; &#x26;", "&nbsp;"]
 
 
 def bounded(tier, seed):
